@@ -58,7 +58,9 @@ let fmt_trace (t : event list) =
         h := Int64.mul !h 0x100000001b3L) tok;
       h := Int64.logxor !h (Int64.of_int (Char.code ','));
       h := Int64.mul !h 0x100000001b3L) toks;
-    Printf.sprintf "#%d:%016Lx" n !h
+    let labels = List.filter (fun t -> String.length t > 0 && t.[0] = 'B') toks in
+    let lab = if labels = [] then "" else ":" ^ String.concat "," labels in
+    Printf.sprintf "#%d:%016Lx%s" (n - List.length labels) !h lab
   end else String.concat "," toks
 
 let fmt_panic = function
